@@ -125,6 +125,7 @@ type Obligation struct {
 	Model   string
 	Output  string
 	ex      *Exec
+	noLemmas bool
 }
 
 type Exec struct {
